@@ -688,7 +688,7 @@ DECOY_STYLES = ('renumbered', 'halved')     # same multiset / total (state keyed
 DECOY_SEED = 20261002     # what a generator passed as `seed` is replaced by in a decoy call
 DECOY_FULL = 100          # per function: eligible calls during which the probability is p; afterwards p * DECOY_FULL / (number of calls so far)
 DECOY_AFTER = 1.0 / 3     # share of the sequences that also get the second decoy call (after the judged call)
-DECOY_T = 2.0             # wall-clock limit of one decoy call (load-scaled); a function whose decoy timed out gets no further decoys
+DECOY_T = 1.0             # wall-clock limit of one decoy call (load-scaled); a function whose decoy timed out gets no further decoys
 
 
 def apply_variant(kind, A):
@@ -732,6 +732,16 @@ def no_variants():
         yield
     finally:
         _VAR['off'] -= 1
+
+
+@contextlib.contextmanager
+def no_decoys():
+    """calls made inside this block are never turned into a decoy / judged-call sequence (storage conversions stay on)"""
+    prev, _VAR['decoy'] = _VAR['decoy'], False
+    try:
+        yield
+    finally:
+        _VAR['decoy'] = prev
 
 
 def take_variants():
@@ -1171,7 +1181,8 @@ class _BctProxy(types.ModuleType):
 
 
 def install_variants(ctx):
-    """called by ./check right before mod.run(ctx) (normal and escalated pass); VERIF_VARIANTS=0 switches the layer off"""
+    """called by ./check right before mod.run(ctx) (normal and escalated pass); VERIF_VARIANTS=0 switches the layer off,
+    VERIF_DECOY=0 only its call-sequence mode"""
     import importlib
     st = _VAR
     if st['real'] is None:
@@ -1228,10 +1239,12 @@ def variants_trusted_line(ctx):
     nd = sum(v for k, v in ctx.dist.items() if k.startswith('decoy:'))
     if isinstance(iv.get('decoy'), dict):
         iv['decoy'].update(sequences=nd, decoy_call_outcomes={q: v for q, v in _VAR['decoy_stats'].items() if q != 'cpu_s'}, cpu_s=round(_VAR['decoy_stats'].get('cpu_s', 0.0), 2), functions_whose_decoy_timed_out=sorted(_VAR['decoy_bad'] - set(iv['decoy']['skipped_functions'])))
-    dline = ('; call-sequence mode: %d calls were made as decoy call f(B) - B[...] = A - judged call f(B) - decoy call f(B2), on private buffers (B, B2: node '
-             'renumberings of A, some halved), and judged by the same oracle and model: trusted: ndarray.copy / fancy indexing / in-place assignment preserve '
-             'values, a decoy call leaves nothing behind in the harness (global np.random state, _verif hook log and variant_retry recordings are put back, '
-             'generators passed as seed are replaced by the integer %d in decoy calls), and a correct routine is a function of its argument values' % (nd, DECOY_SEED)
+    dline = ('; call-sequence mode: %d more of the harness\'s bct calls were made as a sequence - decoy call f(B) on a private buffer B (a node renumbering of the harness\'s array '
+             'A, in some sequences halved), B[...] = A, the judged call f(B), in a third of the sequences a second decoy call f(B2) - and judged by the same '
+             'oracle and model (the layer\'s own clause: the returned object does not change during the second decoy call); trusted: fancy indexing and '
+             'in-place assignment preserve values, a decoy call leaves nothing behind in the harness (global np.random state, _verif hook log and variant_retry '
+             'recordings are put back, generators passed as seed are replaced by the integer %d, other containers are copied, the harness\'s wall-clock alarm is '
+             'paused), and a correct routine is a function of its argument values and seed' % (nd, DECOY_SEED)
              if isinstance(iv.get('decoy'), dict) else '; call-sequence mode %s' % iv.get('decoy', 'off'))
     return dline.join(_variants_line(ctx, iv, n))
 
